@@ -770,20 +770,25 @@ Proof.
   destruct (D_ref_inv s _ _ _ _ _ _ HG HD) as (ch0 & -> & _). eauto.
 Qed.
 
+Transparent G.
+Lemma G_def : G = of_list l_meta.
+Proof. reflexivity. Qed.
+Opaque G.
+
 Theorem reader_has_derivation : forall s rs, read_rulelist s = Some rs ->
   exists t, D (of_list l_meta) s (ERef (rid_meta "rulelist")) 0 [t] (length s).
 Proof.
-  intros s rs H. rewrite id_rulelist. exact (M_tree s _ _ _ def_rulelist (reader_M_rulelist s rs H)).
+  intros s rs H. rewrite id_rulelist, <- G_def. exact (M_tree s _ _ _ def_rulelist (reader_M_rulelist s rs H)).
 Qed.
 Theorem reader_has_derivation_rule : forall s a, read_rule s = Some (a, []) ->
   exists t, D (of_list l_meta) s (ERef (rid_meta "rule")) 0 [t] (length s).
 Proof.
-  intros s a H. rewrite id_rule. exact (M_tree s _ _ _ def_rule (reader_M_rule s a H)).
+  intros s a H. rewrite id_rule, <- G_def. exact (M_tree s _ _ _ def_rule (reader_M_rule s a H)).
 Qed.
 Theorem reader_has_derivation_elements : forall s a, read_elements s = Some (a, []) ->
   exists t, D (of_list l_meta) s (ERef (rid_meta "elements")) 0 [t] (length s).
 Proof.
-  intros s a H. rewrite id_elements. exact (M_tree s _ _ _ def_elements (reader_M_elements s a H)).
+  intros s a H. rewrite id_elements, <- G_def. exact (M_tree s _ _ _ def_elements (reader_M_elements s a H)).
 Qed.
 
 (* both directions together: the reader accepts exactly the derivable texts, with the derivation's syntax *)
